@@ -316,7 +316,7 @@ def prepEchoing : Op :=
     (whenOp (fun s => s.vSending.st != .active)
        (must (fun s => !(IcapConsts.planChecksConsumed && s.consumed != 0)) ;;
         whenOp (fun s => IcapConsts.replanAfterStopBackup && s.vSending.st == .disabled && s.consumed == 0)
-          (fun s => { s with vSending := {} }) ;;
+          (fun s => { s with vSending := { s.vSending with st := .undecided } }) ;;     -- nothing was echoed yet: its offset is still 0
         planSending) ;;
      must (fun s => s.outSt == .noPipe) ;;       -- makeAdaptedBodyPipe(): Must(!adapted.body_pipe)
      openEchoPipe ;; checkConsuming)
@@ -444,8 +444,11 @@ def dropHead : Op := fun s => { s with head := .none, sending := .undecided }
 def bypassFailure : Op :=
   (fun s => { s with canStartBypass := false, bypassed := true }) ;;
   must (fun s => !s.isRetriable) ;;
+  -- the C++ calls stopParsing(false) after startSending(); neither prepEchoing() nor startSending() reads state.parsing,
+  -- so doing it first is the same computation (and lets the parsing-indexed invariants hold throughout)
+  stopParsing false ;;
   whenOp (fun s => IcapConsts.dropPartialAdaptedHead && s.head == .adapted && s.answer == .none && s.outSt == .noPipe && s.sending == .adapted) dropHead ;;
-  prepEchoing ;; startSending ;; stopParsing false ;; stopWriting true ;;
+  prepEchoing ;; startSending ;; stopWriting true ;;
   (fun s => { s with readerOn := false })
 
 /-- ModXact::callException() -/
